@@ -104,6 +104,7 @@ class Shadow:
         self.hattr = {}
         self.dimnames = []
         self.scaled = set()
+        self.scalesz = {}
 
 
 def gen_set(r, sh, lines, iface, objtok, names, malformed):
@@ -130,6 +131,8 @@ def gen_set(r, sh, lines, iface, objtok, names, malformed):
     if malformed and r.random() < 0.15:
         cnt = r.choice([0, -1, 65535 // NTSZ[nt & 255] + 1, 70000])
         data = b"\0" * max(0, min(cnt, 70000) * NTSZ[nt & 255])
+        if len(data) > 300000:
+            data = data[:300000]
     else:
         data = rtext(r, cnt) if (nt & 255) in (3, 4) and r.random() < 0.7 else rdata(r, cnt * NTSZ[nt & 255])
     if malformed and r.random() < 0.05:
@@ -214,10 +217,14 @@ def gen_history(r, name, malformed=False):
                 elif p < 0.86:
                     d = r.randrange(rank)
                     snt = r.choice(NTS)
+                    prev = sh.scalesz.get((i, d))
+                    if prev is not None and NTSZ[snt] > prev and r.random() < 0.9:
+                        snt = r.choice([n for n in NTS if NTSZ[n] <= prev])   # a wider type over an existing scale: known finding, rare
                     cnt = dims[d] if r.random() < 0.9 else dims[d] + 1
                     L.append("sd.setdimscale D%d.%d %d %d %s" % (i, d, cnt, snt, hx(rdata(r, cnt * NTSZ[snt]))))
                     if cnt == dims[d]:
                         sh.scaled.add((i, d))
+                        sh.scalesz[(i, d)] = NTSZ[snt]
                 else:
                     d = r.randrange(rank)
                     ss = [r.choice(["-", "e", hx(rtext(r, r.choice([1, 4, 12, 30])))]) for _ in range(3)]
@@ -434,7 +441,20 @@ def _attr_tuples(line, lead):
     return [tuple(body[k:k + 4]) for k in range(0, len(body), 5)]
 
 
-def signature(hist, i, R, S):
+def probe_renumber(ctx, hist, i):
+    """re-run the history up to the failing operation with DRIVE_ATTR_PROBE=1: does a metadata write before it give
+    an unnamed dimension another 'fakeDim<n>' name than it has in memory?"""
+    exe = ctx.harness("drive_attr", ["drive_attr.c"])
+    wd = os.path.join(ctx.bdir, "harness", "c10-probe-%d" % os.getpid())
+    os.makedirs(wd, exist_ok=True)
+    p = os.path.join(wd, "in.hist")
+    open(p, "w").write("\n".join(hist[:i + 1]) + "\n")
+    rc, out = vc.run_lines(exe, p, timeout=120, args=[wd], env={"DRIVE_ATTR_PROBE": "1"})
+    shutil.rmtree(wd, ignore_errors=True)
+    return any(re.match(r"^\d+ probe renumber ", l) for l in out)
+
+
+def signature(hist, i, R, S, ctx=None):
     """Signature of a failing history for the known-findings table, computed from the failing input (the
     operations up to and including the failing one) and the shape of the difference.  None = no known pattern.
 
@@ -445,6 +465,22 @@ def signature(hist, i, R, S):
     r, s = R[i], S[i]
     if r is None or not t[0].startswith("sd."):
         return None
+    if t[0] in ("sd.setdimscale", "sd.getdimscale", "sd.diminfo", "sd.lookup"):
+        # a scale re-set with a wider element type than the scale already stored: the call fails after the type changed
+        oksz = []
+        for k in range(i + 1):
+            u = hist[k].split()
+            if u[0] == "sd.setdimscale" and int(u[3]) & 255 in NTSZ:
+                sz = NTSZ[int(u[3]) & 255]
+                if R[k] == "ok":
+                    oksz.append(sz)
+                elif R[k] == "fail" and S[k] == "ok" and oksz and sz > min(oksz):
+                    return "sd-dimscale-wider-type-over-existing-scale"
+    dimrelated = (len(t) > 1 and t[1][0] in "DV" and t[0] in ("sd.attrs", "sd.attrinfo", "sd.findattr", "sd.diminfo",
+                  "sd.getdimstrs", "sd.getdimscale", "sd.getdatastrs")) or t[0] == "sd.lookup"
+    if ctx is not None and dimrelated and any(h.startswith("sd.setdimname") for h in hist[:i]) and \
+            any(h == "sd.end" for h in hist[:i]) and probe_renumber(ctx, hist, i):
+        return "sd-unnamed-dim-renumbered-on-write"
     long_set = [k for k in range(i) if hist[k].startswith("sd.setattr ") and len(unhx(hist[k].split()[2])) > 64 and R[k] == "ok"]
     if not long_set or not any(hist[k] == "sd.end" for k in range(long_set[0], i)):
         return None
@@ -524,7 +560,7 @@ def run(ctx):
         ctx.case(tuple(h[1:]), nontriv, sample={"history": [x[:100] for x in h[1:8]], "library": [(x or "")[:100] for x in seg[1:8]]}
                  if len(ctx.coverage["samples"]) < 3 else None)
         if i is not None:
-            sig = signature(h, i - lo, R[lo:hi], S[lo:hi])
+            sig = signature(h, i - lo, R[lo:hi], S[lo:hi], ctx)
             if sig is not None and ctx.match_known(sig) is not None:
                 ctx.violation("known finding", "", found=True, signature=sig)
                 known_hists += 1
